@@ -305,9 +305,63 @@ fn main() {
             });
             run_worker(&cases, from, true);
         }
+        // runner --pushloop <total bytes> <pattern of char widths, cycled>   (C12: cost of an append loop)
+        4 if args[1] == "--pushloop" => {
+            let total: usize = args[2].parse().expect("total");
+            push_loop(total, &args[3]);
+        }
         _ => {
             eprintln!("usage: runner <casefile>");
             std::process::exit(2);
         }
+    }
+}
+
+/// Appends characters of the given widths (pattern cycled) to an empty LeanString until `total` bytes, printing one
+/// `G <len before> <capacity after>` line per step on which the allocator was asked for anything, and the totals.
+fn push_loop(total: usize, pattern: &str) {
+    shim::install();
+    shim::begin_case(&[], usize::MAX);
+    let chars = ['a', '\u{e9}', '\u{20ac}', '\u{1f600}'];
+    let pat: Vec<usize> = pattern.bytes().map(|b| (b - b'0') as usize).collect();
+    assert!(!pat.is_empty() && pat.iter().all(|&w| (1..=4).contains(&w)), "pattern: digits 1-4");
+    let out = std::io::stdout();
+    let mut out = BufWriter::new(out.lock());
+    let (mut requests, mut copied, mut i) = (0usize, 0usize, 0usize);
+    let mut expect = String::new();
+    {
+        let mut s = LeanString::new();
+        loop {
+            let w = pat[i % pat.len()];
+            if s.len() + w > total {
+                break;
+            }
+            let before = s.len();
+            s.push(chars[w - 1]);
+            expect.push(chars[w - 1]);
+            let ev = shim::take_events();
+            let asks = ev.iter().filter(|e| !e.is_dealloc()).count();
+            if asks > 0 {
+                requests += asks;
+                copied += before;
+                let evs: Vec<String> = ev.iter().map(|e| e.render()).collect();
+                writeln!(out, "G {} {} {}", before, s.capacity(), evs.join(",")).unwrap();
+            }
+            if s.len() != before + w || s.capacity() < s.len() {
+                writeln!(out, "M pushloop len_or_capacity_wrong at {}", before).unwrap();
+            }
+            i += 1;
+        }
+        if s.as_str() != expect.as_str() {
+            writeln!(out, "M pushloop text_mismatch").unwrap();
+        }
+        writeln!(out, "END len={} cap={} requests={} copied={}", s.len(), s.capacity(), requests, copied).unwrap();
+    }
+    let live = shim::end_case();
+    for (name, detail) in shim::take_failures() {
+        writeln!(out, "M pushloop {} {}", name, detail).unwrap();
+    }
+    if live != 0 {
+        writeln!(out, "M pushloop leak {}", live).unwrap();
     }
 }
